@@ -262,3 +262,10 @@ From Kardia Require Import C06.SourceTie.
 Theorem C06_source_tie : C06_source_tie_statement.
 Proof. exact C06_source_tie_proof. Qed.
 Print Assumptions C06_source_tie.
+
+(** The decision-critical functions of the anchored code have exactly the decisions the source tie knows about
+    (go2coq manifests, regenerated from /repo on every check; statement in SourceManifest.v). *)
+From Kardia Require Import C06.SourceManifest.
+Theorem C06_source_manifest : C06_source_manifest_statement.
+Proof. exact C06_source_manifest_proof. Qed.
+Print Assumptions C06_source_manifest.
